@@ -384,6 +384,18 @@ def run_exploration(ctx, tier, seed, zones):
     stats = {"evaluations": 0, "canonical_runs": len(canon_cases), "matrix_cases": 0, "random_cases": 0, "gap_cases": 0,
              "naive_values": 0, "aware_values": 0, "fold1_values": 0, "cases_with_stale": 0, "cases_all_fresh": 0,
              "distinct_nontrivial": 0, "lean_compared": 0, "fromtimestamp_compared": 0, "ties": 0}
+    # the hypothesis of C18_cpython_lawful_tables (`Spaced`) on the zones actually used: transitions at least 7 days apart,
+    # offsets and jumps below 24 h, in the scanned range (informational: the theorem says for which zones CPython's algorithms
+    # are PROVED lawful; the other zones are covered by the sampled runs only)
+    def spaced(t):
+        prev_t, prev_o = None, t.base
+        for tt, o in t.trs:
+            if abs(o) >= 86400 or abs(o - prev_o) >= 86400 or (prev_t is not None and tt - prev_t < 7 * 86400):
+                return False
+            prev_t, prev_o = tt, o
+        return abs(t.base) < 86400
+    stats["zones"] = len(zones)
+    stats["zones_spaced"] = sum(1 for z in zones if spaced(tables[z]))
     samples = []
     # canonical twins vs the decision recomputed from the bare instants
     for c, r in zip(canon_cases, canon_res):
